@@ -1,7 +1,9 @@
 package seq
 
 import (
+	"berty.tech/go-ipfs-log/enc"
 	"bytes"
+	"crypto/sha256"
 	"encoding/base64"
 	"encoding/hex"
 	"encoding/json"
@@ -287,7 +289,7 @@ func decodeAndExercise(p *run.Part, cc c12Case, c cid.Cid, raw []byte) {
 
 func describeCase(cc c12Case) string {
 	switch cc.Kind {
-	case "cbor-grid", "manifest-grid", "pb-grid":
+	case "cbor-grid", "manifest-grid", "pb-grid", "cbor-sealed":
 		var fs []string
 		for _, f := range cc.Faults {
 			fs = append(fs, f.Path+"="+f.Val)
@@ -355,6 +357,36 @@ func c12One(p *run.Part, cc c12Case) {
 		if !ok {
 			return
 		}
+		decodeAndExercise(p, cc, b.c, cborEnc(t))
+	case "cbor-sealed":
+		// the encrypted-links field holds, validly sealed with the reader's key, a structure with faults in it:
+		// {"next": fault 0, "refs": fault 1}, or (path "inner") a value that is not a map at all
+		b := baseByName(cc.Base)
+		t := deepCopy(b.tree).(map[string]interface{})
+		var inner interface{} = map[string]interface{}{}
+		for _, f := range cc.Faults {
+			if f.Path == "inner" {
+				inner = faultValue(f.Val)
+				continue
+			}
+			if f.Val != "absent" {
+				inner.(map[string]interface{})[f.Path] = faultValue(f.Val)
+			}
+		}
+		k := sha256.Sum256([]byte("K1"))
+		sk, err := enc.NewSecretbox(k[:])
+		if err != nil {
+			panic(err)
+		}
+		nonce := bytes.Repeat([]byte{7}, 24)
+		sealed, err := sk.SealWithNonce(cborEnc(inner), nonce)
+		if err != nil {
+			panic(err)
+		}
+		t["enc_links"] = base64.StdEncoding.EncodeToString(sealed)
+		t["enc_links_nonce"] = base64.StdEncoding.EncodeToString(nonce)
+		t["next"] = []interface{}{}
+		t["refs"] = []interface{}{}
 		decodeAndExercise(p, cc, b.c, cborEnc(t))
 	case "cbor-bytes":
 		b := baseByName(cc.Base)
@@ -511,6 +543,16 @@ func c12Cases(tier string) []c12Case {
 				cs = append(cs, c12Case{Kind: "cbor-grid", Base: b.name, Faults: []fault{{"enc_links", v1}, {"enc_links_nonce", v2}}})
 			}
 		}
+	}
+	// faults inside a validly sealed encrypted-links field (the reader holds the key): every pair over the link-shaped values
+	inner := []string{"absent", "null", "int1", "text", "bytes", "emptylist", "list1", "map", "link", "badlink", "emptylink", "linklist", "badlinklist", "nulllist", "textlist"}
+	for _, v1 := range inner {
+		for _, v2 := range inner {
+			cs = append(cs, c12Case{Kind: "cbor-sealed", Base: "linked", Faults: []fault{{"next", v1}, {"refs", v2}}})
+		}
+	}
+	for _, v := range []string{"null", "int1", "text", "bytes", "emptylist", "linklist", "link", "emptylink"} {
+		cs = append(cs, c12Case{Kind: "cbor-sealed", Base: "linked", Faults: []fault{{"inner", v}}})
 	}
 	subst := []int{0x00, 0x1f, 0x40, 0x5f, 0x7f, 0x80, 0x9f, 0xa0, 0xbf, 0xd8, 0xf6, 0xff}
 	for _, b := range append(append([]c12Base{}, c12Bases...), c12Manifest) {
